@@ -70,6 +70,9 @@ type Op struct {
 	QuirkOf string
 	// QuirkFor restricts a quirk op to the listed properties (empty: all).
 	QuirkFor []string
+	// QuirkStrings are extra strings for the first slot of a leaf quirk op,
+	// with {T} standing for the slot's token.
+	QuirkStrings []string
 	// ExtraOnly ops are reachable by name (hand-picked Extras terms, sweeps)
 	// but are not part of the enumerated spaces.
 	ExtraOnly bool
@@ -201,7 +204,7 @@ func Splice(s, tok string) string {
 
 // REG is the "regular text" alphabet of the quantifiers: non-empty valid
 // UTF-8, no marker runes, newlines interior and isolated.
-var REG = []string{"a", "x: y", "p: ", "100% %d %s", "ü \"q\" 'r'", "l1\nl2", "q:", "r "}
+var REG = []string{"a", "x: y", "p: ", "100% %d %s", "ü \"q\" 'r'", "l1\nl2", "q:", "r ", "s \n\tt"}
 
 // REGE is REG plus the empty string: for the properties whose
 // quantifier does not exclude empty messages.
@@ -210,7 +213,8 @@ var REGE = append(append([]string{}, REG...), "")
 // HOSTILE adds the strings the redaction properties quantify over.
 var HOSTILE = append(append([]string{}, REG...),
 	"", "‹", "›", "a‹b›c", "›x‹", "‹×›", "x‹", "x›", "\n", "\nx", "x\n", "a\n\nb", "a›\nb", "a‹\nb›c",
-	"\x00", "a\xffb", "x\xff", "%!v(PANIC=", "a: b: c", ": ", "x:", " ")
+	"\x00", "a\xffb", "x\xff", "%!v(PANIC=", "a: b: c", ": ", "x:", " ",
+	"a\r\nb", "a\rb", "\r", "\ta", "a\u2028b")
 
 // NumSlots returns the number of string slots in t (preorder).
 func (t *Term) NumSlots() int {
